@@ -46,37 +46,38 @@ type retRec struct {
 // FnEnc encodes one function under contract.
 type FnEnc struct {
 	Enc
-	eng          *Eng
-	fn           *ssa.Function
-	con          *Contract
-	st0          *State // state at entry (what old() refers to)
-	params       map[string]Val
-	top          *Frame
-	safe         bool
-	counters     map[string]int
-	callOrd      map[string]int
-	epoch        int
-	curFrame     *Frame
-	curGuard     string
-	curPos       token.Pos
-	loopOrd      int
-	nilChecked   map[string][]string
-	writes       []writeRec
-	writePos     []token.Pos
-	entryRegions *[]Region      // the function's modifies clause evaluated at entry
-	callResults  map[string]Val // "<short name>#<ordinal>" -> result of that call
-	lastCall     string
-	mapVers      map[string]int    // digest of the map heaps -> version number (pureResult)
-	pureDone     map[string]bool   // postconditions already assumed for a pure application
-	heldPred     string // predicate "this cell is a lock ghost" (see heldCellPred)
-	heldPredDone bool
-	eqState      *State            // state in which == on interface values loads boxed contents
-	topCallKey   string            // key of the last call numbered in the function under contract itself
-	callStates   map[string]*State // "<short name>#<ordinal>" -> state right after that call
-	curBlock     *ssa.BasicBlock
-	loopFrames   []loopFrame       // loops with an explicit loopmodifies clause: regions at the loop head
-	srcOrd       map[token.Pos]int // call position -> ordinal among the calls of the same name, in source order
-	curCallPos   token.Pos
+	eng           *Eng
+	fn            *ssa.Function
+	con           *Contract
+	st0           *State // state at entry (what old() refers to)
+	params        map[string]Val
+	top           *Frame
+	safe          bool
+	counters      map[string]int
+	callOrd       map[string]int
+	epoch         int
+	curFrame      *Frame
+	curGuard      string
+	curPos        token.Pos
+	loopOrd       int
+	nilChecked    map[string][]string
+	writes        []writeRec
+	writePos      []token.Pos
+	entryRegions  *[]Region      // the function's modifies clause evaluated at entry
+	callResults   map[string]Val // "<short name>#<ordinal>" -> result of that call
+	lastCall      string
+	mapVers       map[string]int  // digest of the map heaps -> version number (pureResult)
+	pureDone      map[string]bool // postconditions already assumed for a pure application
+	heldPred      string          // predicate "this cell is a lock ghost" (see heldCellPred)
+	heldPredDone  bool
+	curCalleeFull string            // full name of the callee whose call-site assertions are being emitted
+	eqState       *State            // state in which == on interface values loads boxed contents
+	topCallKey    string            // key of the last call numbered in the function under contract itself
+	callStates    map[string]*State // "<short name>#<ordinal>" -> state right after that call
+	curBlock      *ssa.BasicBlock
+	loopFrames    []loopFrame       // loops with an explicit loopmodifies clause: regions at the loop head
+	srcOrd        map[token.Pos]int // call position -> ordinal among the calls of the same name, in source order
+	curCallPos    token.Pos
 }
 
 func (f *FnEnc) pos(p token.Pos) token.Position { return f.eng.fset.Position(p) }
@@ -188,11 +189,53 @@ func capturedOnlyLocally(a *ssa.Alloc) bool {
 			continue
 		}
 		captured = true
-		if !closureOnlyCalled(mc) {
+		if !closureOnlyCalled(mc) && !spawnedReadOnly(mc, a) {
 			return false
 		}
 	}
 	return captured
+}
+
+// spawnedReadOnly: the closure is only started with `go` and only READS the
+// captured variable a (so the spawning function's view of a never changes;
+// the goroutine itself is not interleaved, see the note on go statements).
+func spawnedReadOnly(mc *ssa.MakeClosure, a *ssa.Alloc) bool {
+	refs := mc.Referrers()
+	if refs == nil {
+		return false
+	}
+	for _, r := range *refs {
+		if _, ok := r.(*ssa.DebugRef); ok {
+			continue
+		}
+		g, ok := r.(*ssa.Go)
+		if !ok || g.Call.Value != mc {
+			return false
+		}
+	}
+	fn, ok := mc.Fn.(*ssa.Function)
+	if !ok {
+		return false
+	}
+	for i, b := range mc.Bindings {
+		if b != a || i >= len(fn.FreeVars) {
+			continue
+		}
+		fr := fn.FreeVars[i].Referrers()
+		if fr == nil {
+			continue
+		}
+		for _, u := range *fr {
+			if ld, ok := u.(*ssa.UnOp); ok && ld.Op == token.MUL {
+				continue
+			}
+			if _, ok := u.(*ssa.DebugRef); ok {
+				continue
+			}
+			return false
+		}
+	}
+	return true
 }
 
 func closureOnlyCalled(mc *ssa.MakeClosure) bool {
